@@ -48,6 +48,34 @@ theorem find?_set_ne (m : AList κ ν) (k k₂ : κ) (v : ν) (h : k ≠ k₂) :
       · subst h2; simp [set, find?, h1]
       · simp [set, find?, h1, h2, ih]
 
+theorem erase_cons (k' : κ) (v : ν) (t : AList κ ν) (k : κ) :
+    erase ((k', v) :: t) k = if k' = k then erase t k else (k', v) :: erase t k := by
+  unfold erase
+  by_cases h : k' = k <;> simp [h]
+
+theorem find?_erase_self (m : AList κ ν) (k : κ) : find? (erase m k) k = none := by
+  induction m with
+  | nil => rfl
+  | cons p t ih =>
+    obtain ⟨k', v⟩ := p
+    rw [erase_cons]
+    by_cases h : k' = k
+    · simp only [h, if_true]; exact ih
+    · simp only [h, if_false, find?]; exact ih
+
+theorem find?_erase_ne (m : AList κ ν) (k k₂ : κ) (h : k ≠ k₂) : find? (erase m k) k₂ = find? m k₂ := by
+  induction m with
+  | nil => rfl
+  | cons p t ih =>
+    obtain ⟨k', v⟩ := p
+    rw [erase_cons]
+    by_cases h1 : k' = k
+    · subst h1; simp only [if_true, find?, h, if_false]; exact ih
+    · simp only [h1, if_false, find?]
+      by_cases h2 : k' = k₂
+      · simp [h2]
+      · simp [h2, ih]
+
 end AList
 
 /-- insertion into a list sorted by a key function on `String` keys (strict `<` on strings), replacing an equal key. -/
